@@ -33,7 +33,8 @@ func init() {
 			"empty strings are 'absent' on both sides; at most 5000 name records; total string storage <= 65535 bytes in the main cases, two long strings (storage up to 128 KiB, every offset below 65536) in the large-storage cases; tables in which a string would start beyond offset 65535 cannot be expressed by the format: there a refusal is accepted and a table that decodes to other strings is not",
 			"the Mac OS Roman repertoire is the one of Apple's ROMAN.TXT (own table, cross-checked against golang.org/x/text)",
 			"Windows strings are valid Unicode (no lone surrogates); windowsEncodingID is 1 (the only one name.Decode understands)",
-			"glyph names are 1..255 bytes; at most 65277 non-standard entries (glyphNameIndex is 16 bit)",
+			"glyph names are 0..255 bytes (one list in six uses the empty string as a custom name: a Pascal string of length 0); at most 65277 non-standard entries (glyphNameIndex is 16 bit)",
+			"a name.Table.Extra entry for an id that has a field of its own is a second home for one name id; the property does not say which one counts. Stratum name-extra-clash records what is written (classes name-extra-clash:field-set/field-empty:...) and judges only panics and the strings of all other ids",
 			"x/image: Name() does not decode surrogate pairs and GlyphName() rejects indices above 32767; such witnesses skip the x/image comparison",
 		},
 	}, runC14)
@@ -664,6 +665,146 @@ func runC14(c *mon.Ctx) {
 		"ximage:name-agrees")
 
 	// ------------------------------------------------------------------
+	// name.Table.Extra entries for ids that have a field of their own (borderline:
+	// a second home for the same name id).  What becomes of such an entry is
+	// recorded; judged are panics and the strings of all other ids, which must
+	// survive as if the entry were not there.
+	c.Stratum("name-extra-clash", c.N(300, 20000), func(k *mon.Case) {
+		r := k.Rng
+		macPlatform := r.IntN(3) == 0
+		L, platform := winL, uint16(3)
+		if macPlatform {
+			L, platform = macL, 1
+		}
+		tag := L.tags[r.IntN(len(L.tags))]
+		t := &name.Table{}
+		regular := map[uint16]string{}
+		var ids []uint16
+		for i := 1 + r.IntN(8); i > 0; i-- {
+			ids = append(ids, c14namedIDs[r.IntN(len(c14namedIDs))])
+		}
+		for i := r.IntN(4); i > 0; i-- {
+			ids = append(ids, []uint16{15, 26, uint16(26 + r.IntN(230)), uint16(256 + r.IntN(65280)), 65535}[r.IntN(5)])
+		}
+		str := func() string {
+			for {
+				if s, _ := c14string(r, macPlatform, 40); s != "" {
+					return s
+				}
+			}
+		}
+		for _, id := range ids {
+			s := str()
+			c14set(t, id, s)
+			regular[id] = s
+		}
+		// the clashing entries
+		clash := map[uint16]string{}
+		var clashIDs []uint16
+		for i := 1 + r.IntN(3); i > 0; i-- {
+			id := c14namedIDs[r.IntN(len(c14namedIDs))]
+			if r.IntN(2) == 0 && len(ids) > 0 && ids[0] <= 25 && ids[0] != 15 {
+				id = ids[0] // a field that is set
+			}
+			if _, dup := clash[id]; dup {
+				continue
+			}
+			s := str()
+			for s == regular[id] {
+				s = str()
+			}
+			clash[id] = s
+			clashIDs = append(clashIDs, id)
+			if t.Extra == nil {
+				t.Extra = map[name.ID]string{}
+			}
+			t.Extra[name.ID(id)] = s
+		}
+		info := &name.Info{Mac: name.Tables{}, Windows: name.Tables{}}
+		if macPlatform {
+			info.Mac[tag] = t
+		} else {
+			info.Windows[tag] = t
+		}
+		k.Step(fmt.Sprintf("platform %d language %q regular ids %v, Extra entries for the named ids %v", platform, tag, ids, clashIDs))
+		var enc []byte
+		if k.Guard("name.Info.Encode", func() { enc = info.Encode(1) }) {
+			return
+		}
+		k.Input(enc)
+		k.DistinctBytes(enc)
+		tr, err := tabread.ReadName(enc)
+		k.Eval()
+		if err != nil {
+			k.Fail("mismatch", "name-extra-clash:independent-reader-rejects", "%v", err)
+			return
+		}
+		lang0 := L.back[tag][0]
+		inBytes := map[uint16][]string{}
+		for _, rec := range tr.Records {
+			if rec.PlatformID != platform || rec.LanguageID != lang0 {
+				continue
+			}
+			got, _ := rec.String()
+			inBytes[rec.NameID] = append(inBytes[rec.NameID], got)
+		}
+		var dec *name.Info
+		if k.Guard("name.Decode", func() { dec, err = name.Decode(enc) }) {
+			return
+		}
+		k.Eval()
+		if err != nil {
+			k.Fail("mismatch", "name-extra-clash:decode-rejects-own-output", "%v", err)
+			return
+		}
+		back := dec.Windows[tag]
+		if macPlatform {
+			back = dec.Mac[tag]
+		}
+		have := c14flatten(back)
+		for _, id := range ids {
+			if _, isClash := clash[id]; isClash {
+				continue
+			}
+			if len(inBytes[id]) != 1 || inBytes[id][0] != regular[id] {
+				k.Fail("mismatch", "name-extra-clash:other-id-in-bytes", "id %d (%.40q) is %.40q in the emitted table, which also has Extra entries for the named ids %v", id, regular[id], inBytes[id], clashIDs)
+				return
+			}
+			if have[id] != regular[id] {
+				k.Fail("mismatch", "name-extra-clash:other-id-roundtrip", "id %d: %.40q came back as %.40q from a table with Extra entries for the named ids %v", id, regular[id], have[id], clashIDs)
+				return
+			}
+		}
+		for id := range have {
+			if _, ok := regular[id]; !ok && clash[id] == "" {
+				k.Fail("mismatch", "name-extra-clash:spurious-id", "id %d appeared (%.40q)", id, have[id])
+				return
+			}
+		}
+		for _, id := range clashIDs {
+			state := "field-empty"
+			if regular[id] != "" {
+				state = "field-set"
+			}
+			switch {
+			case len(inBytes[id]) > 1:
+				k.Class("name-extra-clash:" + state + ":two-records-for-one-id")
+			case len(inBytes[id]) == 0:
+				k.Class("name-extra-clash:" + state + ":nothing-written")
+			case inBytes[id][0] == clash[id]:
+				k.Class("name-extra-clash:" + state + ":extra-entry-written")
+			case inBytes[id][0] == regular[id]:
+				k.Class("name-extra-clash:" + state + ":field-written,extra-entry-ignored")
+			default:
+				k.Fail("mismatch", "name-extra-clash:third-string", "id %d: field %.40q, Extra entry %.40q, the bytes hold %.40q", id, regular[id], clash[id], inBytes[id][0])
+				return
+			}
+		}
+		k.Class("name-extra-clash:other-ids-intact")
+	})
+	c.Require("name-extra-clash:other-ids-intact")
+
+	// ------------------------------------------------------------------
 	// platform language ids: well-known ids (OpenType name chapter, Macintosh
 	// language ids and Windows LCIDs) must map to a tag of the right
 	// language; only the primary language subtag is compared
@@ -880,7 +1021,7 @@ func runC14(c *mon.Ctx) {
 	})
 	c.Require("post:standard-order-spec-side")
 	c.Require("post:format-1", "post:format-2", "post:format-3", "post:permutation", "post:subset", "post:custom-names",
-		"post:custom-255-bytes", "post:duplicates", "post:1-glyph", "post:65535-glyphs", "ximage:glyphname-agrees")
+		"post:custom-255-bytes", "post:custom-empty-name", "post:duplicates", "post:1-glyph", "post:65535-glyphs", "ximage:glyphname-agrees")
 }
 
 // ---- script / language tags ----
@@ -1298,6 +1439,7 @@ func c14post(k *mon.Case, thorough bool) {
 		}
 		return 1 + r.IntN(300)
 	}
+	emptyNames := r.IntN(6) == 0 // lists with the empty string as a custom name (a Pascal string of length 0)
 	custom := func() string {
 		for {
 			n := 1 + r.IntN(20)
@@ -1307,6 +1449,11 @@ func c14post(k *mon.Case, thorough bool) {
 				classes["post:custom-255-bytes"] = true
 			case 1:
 				n = 1 + r.IntN(255)
+			case 2, 3:
+				if emptyNames {
+					classes["post:custom-empty-name"] = true
+					return ""
+				}
 			}
 			if s := c14customName(r, n); !isStd[s] {
 				return s
